@@ -1,6 +1,6 @@
 #!/bin/bash
 # tools/confirm_seed.sh <PROP> <V>  : confirm a sub-agent's seeded change in a scratch worktree and store it under /verif/seeded/<PROP>-<V>/
-PROP=$1; V=$2; SRC=/tmp/seed/$PROP/$V; DST=/verif/seeded/$PROP-$V
+PROP=$1; V=$2; SRC=${SEED_BASE:-/tmp/seed}/$PROP/$V; DST=/verif/seeded/$PROP-$V
 WT=/tmp/cs_${PROP}_$V
 git -C /repo worktree remove --force $WT 2>/dev/null
 git -C /repo worktree add -q --detach $WT HEAD || exit 2
